@@ -121,7 +121,7 @@ func init() {
 			c.guard("tables/quality", func() { ruleQuality(c) })
 			c.guard("directsink", func() { ruleDirectSink(c, "directsink", seqs...); c.floor("directsink", 2) })
 			c.guard("prefixstrip", func() { rulePrefixStrip(c, "prefixstrip", seqs...); c.floor("prefixstrip", 2) })
-			c.guard("bareplus", func() { ruleBarePlus(c, "bareplus"); c.floor("bareplus", 2) })
+			c.guard("bareplus", func() { ruleBarePlus(c, "bareplus"); c.floor("bareplus", 1) })
 			c.guard("overflowwidth", func() { ruleOverflowWidth(c, "overflowwidth"); c.floor("overflowwidth", 1) })
 			c.guard("linelimit", func() { ruleLineLimit(c, "linelimit", seqs...) })
 			c.guard("fresh/clonedeep", func() {
